@@ -281,7 +281,7 @@ pub fn c03_iter_dist_sparse_n4_m4() {
 }
 
 // The same through AdjacencyListWeighted<usize>, <= 3 arcs on 3 vertices.
-// @verif prop=C03 tier=thorough fl=f2 role=distances/repr t=3600 mem=30
+// @verif prop=C03 tier=thorough fl=f2 feat=map4 role=distances/repr t=3600 mem=30
 #[cfg_attr(kani, kani::proof)]
 #[cfg_attr(kani, kani::unwind(10))]
 pub fn c03_distances_repr_n3_m3() {
